@@ -28,6 +28,39 @@ def per_trait(items, traits):
     return out if i == len(items) else None
 
 
+def _take_qualified_attr(tokens):
+    """(args, rest) if the re-emitted item starts with a crate-path derive_ex attribute, else None (token text from the expander)"""
+    m = re.match(r"\s*#\s*\[\s*(?:::\s*)?derive_ex\s*::\s*derive_ex\s*\(", tokens)
+    if not m:
+        return None
+    i = m.end()
+    depth = 1
+    while i < len(tokens) and depth:
+        depth += {"(": 1, ")": -1}.get(tokens[i], 0)
+        i += 1
+    m2 = re.match(r"\s*\]", tokens[i:])
+    if depth or not m2:
+        return None
+    return tokens[m.end():i - 1], tokens[i + m2.end():]
+
+
+def expand_like_rustc(ex, args, item, fuel=6):
+    """attribute macros expand outside-in: the first derive_ex attribute runs, its output item is expanded again if it still carries a
+    derive_ex attribute macro written with the crate path (in-process emulation of rustc's expansion loop); returns the impls in order"""
+    out = []
+    while fuel:
+        fuel -= 1
+        r = ex.attr(args, item)
+        if r["status"] != "ok" or not r.get("items"):
+            return None
+        out += [i["canon"] for i in r["items"][1:]]
+        nxt = _take_qualified_attr(r["items"][0]["tokens"])
+        if nxt is None:
+            return out
+        args, item = nxt
+    return None
+
+
 def run(ctx):
     ex = Expander()
     rng = random.Random(ctx.seed + 15)
@@ -146,6 +179,24 @@ def run(ctx):
                 break
         if len(ctx.violations) > 30:
             break
+    # split lists written with the crate path (`#[derive_ex::derive_ex(..)]` stacked): same impls as the merged list
+    qn = 0
+    for lists, item in [([["PartialEq", "Eq"], ["Hash"]], "struct S { #[eq(key = $.abs())] x: i32 }"),
+                        ([["Ord", "PartialOrd"], ["Eq", "PartialEq"]], "struct X(#[ord(key = $.abs())] i8);"),
+                        ([["PartialOrd", "PartialEq"], ["Ord", "Eq"]], "enum E { A(#[ord(reverse)] u8), B }"),
+                        ([["Clone"], ["Debug"]], "struct P<T> { #[derive_ex(Debug(bound(T: Copy)))] a: Box<T> }"),
+                        ([["PartialEq"], ["Eq"], ["Hash"], ["Debug"]], "struct S { #[eq(key = $.len())] #[debug(ignore)] s: String, t: u8 }"),
+                        ([["Default", "Clone"], ["PartialEq", "PartialOrd"]], "enum E<T> { #[default] A { #[default(3)] #[partial_ord(ignore)] a: u8, t: Option<T> }, B }")]:
+        merged = impls_of(ex.attr(", ".join(t for l in lists for t in l), item), True)
+        for spelling in ("derive_ex::derive_ex", "::derive_ex::derive_ex"):
+            stacked_item = " ".join("#[%s(%s)]" % (spelling, ", ".join(l)) for l in lists[1:]) + " " + item
+            got = expand_like_rustc(ex, ", ".join(lists[0]), stacked_item)
+            evals += len(lists) + 1
+            nontriv += 1
+            qn += 1
+            if got is None or got != merged:
+                ctx.violation("B:C15:stacked-qualified:%s:%s" % (spelling, stacked_item), "the trait list split over stacked #[%s(..)] attributes does not give the impls of the merged list (helper attributes are consumed by the first expansion)" % spelling,
+                              {"layer": "B", "item": stacked_item, "args": ", ".join(lists[0]), "merged": merged, "stacked": got})
     # systematic part of relation (c): every comparison trait, alone vs. with every co-derived subset of the other comparison traits,
     # on fields carrying only helper attributes that belong to that trait
     import itertools, cmpfam
@@ -173,6 +224,21 @@ def run(ctx):
                         continue
                     break
     ex.close()
+    # what only rustc can show (the in-process expander sees identical tokens): inner #[cfg] is evaluated for derive input but not for
+    # attribute input, and a renamed import of the attribute macro is not recognised as a sibling list
+    import elayer as E
+    rp = "\npub fn replay(_h: &str, _b: &[u8]) -> (bool, String) { (true, String::new()) }\n"
+    cfg_item = "pub struct S { pub a: u8, #[cfg(any())] pub b: NoSuchType }"
+    eprogs = [
+        E.Prog("p_cfg_derive", "#[derive(derive_ex::Ex)]\n#[derive_ex(Clone, Debug, PartialEq)]\n" + cfg_item + rp, [], {"describe": "#[derive(Ex)] #[derive_ex(Clone, Debug, PartialEq)] " + cfg_item}),
+        E.Prog("p_cfg_attr", "#[derive_ex::derive_ex(Clone, Debug, PartialEq)]\n" + cfg_item + rp, [], {"describe": "#[derive_ex(Clone, Debug, PartialEq)] " + cfg_item}),
+        E.Prog("p_alias_split", "use derive_ex::derive_ex as dx;\n#[dx(PartialEq, Eq)]\n#[dx(Hash)]\n#[derive(Debug)]\npub struct S { #[eq(key = $.abs())] pub x: i32 }\n\n"
+               "pub fn ncheck() -> Vec<String> { use core::hash::{Hash, Hasher}; let mut out = Vec::new(); let (a, b) = (S { x: 1 }, S { x: -1 });\n"
+               "    let h = |s: &S| { let mut r = Rec::new(); s.hash(&mut r); r };\n"
+               "    if a == b && h(&a) != h(&b) { out.push(\"split over a renamed import of the attribute: equal values feed different hashes (merged list: the key)\".to_string()); }\n    out }\n" + rp,
+               [], {"describe": "use derive_ex::derive_ex as dx; #[dx(PartialEq, Eq)] #[dx(Hash)] struct S { #[eq(key = $.abs())] x: i32 }"}, ncheck=True),
+    ]
+    est = E.run_family(ctx, "C15", eprogs, None)
     g = glayer.run_g(ctx, G_UNITS)
     ctx.assumptions += [
         "bounded stand-in carries most of this property: metamorphic token equality of in-process expansions (real generator code) on a seeded family of items; from_root / from_args_list use syn parsing and are not under contract",
